@@ -819,7 +819,10 @@ rt_prop("C06", ["cancel", "task"],
         "untouched; drop_is_contained; poll_keeps_own_slab; hosting_ordered_under_core (the same invariant in every state a Core "
         "reaches: QueuingExecutor, CommandSpawner, legacy tasks, update, event loop, shell operations — invariant CInv); "
         "command_never_writes_core_queues (nothing inside a command, at any depth, writes the Core's spawn queue, effect channel "
-        "or event channel). Non-interference with siblings in terms of outputs is stated "
+        "or event channel); sibling_commands_unaffected_flat (for commands without combinators: whatever polling command c does — "
+        "running tasks, processing its abort, cancelling, evicting, aborting others by name — every other command keeps exactly its "
+        "task slab, spawn queue, queued effects and events, liveness and abort cell; its ready queue changes only together with a "
+        "wake-up), abort_only_flags_and_wakes. Non-interference with siblings in terms of outputs is stated "
         "(siblings_unaffected_goal), covered by the `cancel` profile of the correspondence.",
         goals=["siblings_unaffected_goal"])
 def _add_ext_stream():
